@@ -254,6 +254,13 @@ func (w *world) resolver(ctx context.Context, released func()) (*val, func(), er
 	switch beh {
 	case 0, 1, 2:
 		core.YieldN("refcountx.resolver", k)
+		if c.S.FaultP(80) {
+			// the resolver itself declares its (future) result invalid before returning
+			c.S.Count("fault:invalidate-inside-resolver")
+			rc.relInvAt = c.Tick()
+			released()
+			core.YieldN("refcountx.resolver", 1)
+		}
 		if c.S.PlanP(500) {
 			w.stored = append(w.stored, rc)
 		}
